@@ -279,8 +279,8 @@ where
         run.nontrivial();
     }
     let limit = if rng.bool() { 8 } else { n };
-    let path = rng.below(4);
-    run.count(["range_cursor_vec", "range_slice", "range_encoder_decoder", "range_reversed"][path as usize], 1);
+    let path = rng.below(5);
+    run.count(["range_cursor_vec", "range_slice", "range_encoder_decoder", "range_reversed", "range_user_written_source"][path as usize], 1);
     let mut enc2 = enc.clone();
     let words: Vec<M::W> = enc.into_compressed().unwrap_infallible();
     let total = words.len();
@@ -355,6 +355,11 @@ where
         0 => go!(RangeDecoder::<M::W, S, _>::from_compressed(words.clone()).unwrap_infallible(), "RangeDecoder over Cursor<Vec>"),
         1 => go!(RangeDecoder::<M::W, S, _>::from_compressed(&words[..]).unwrap_infallible(), "RangeDecoder over &[W]"),
         2 => go!(enc2.decoder(), "RangeEncoder::decoder()"),
+        4 => {
+            // a user-written seekable source that relies on the provided trait defaults
+            let src = crate::obsbackend::PlainSeekSource { v: words.clone(), pos: 0 };
+            go!(RangeDecoder::<M::W, S, _>::with_backend(src).unwrap_infallible(), "RangeDecoder over a user-written seekable source")
+        }
         _ => {
             // reversed compressed data read through Reverse<Cursor>: positions are mirrored
             let mut rv = words.clone();
